@@ -131,7 +131,7 @@ def main():
     for d in sorted(glob.glob(os.path.join(V, 'seeded', '*'))):
         name = os.path.basename(d); cid = name.split('-')[0]
         if only and name not in only and cid not in only: continue
-        items.append(('seed', name, d, {'C03-2': ['C02'], 'C05-2': ['C05', 'C03']}.get(name, [cid])))
+        items.append(('seed', name, d, {'C03-2': ['C02'], 'C05-2': ['C05', 'C03'], 'C02-3': ['C17'], 'C05-4': ['C17']}.get(name, [cid])))
     base = '/tmp/verif-selftest-%d' % os.getpid(); os.makedirs(base)
     q = queue.Queue(); [q.put(i) for i in items]; results = []; lk = threading.Lock()
     def worker(k):
